@@ -49,7 +49,7 @@ def run_schedule(schedule, scenario):
     """scenario: {'pre': bool, 'ops': 'PAB', 'second': 'AB' or ''} -> (sched, problem or None)"""
     import supp.remote as R
     s = sched.Sched(schedule, R.__file__)
-    env, restore = sched.install(s, R)
+    env, restore = sched.install(s, R, fail_first_launch=scenario.get('fail_first', False))
     try:
         def op_fn(op):
             if op == 'P':
@@ -83,6 +83,9 @@ def run_schedule(schedule, scenario):
                 return s, ('deadlock', 'no enabled thread: %s' % (e,))
             results.extend(tids)
         for tid, st in s.threads.items():
+            if st['exc'] is not None and scenario.get('fail_first') and isinstance(st['exc'], OSError) and tid == getattr(s, 'failed_in', None):
+                continue        # the injected failure surfaces in the thread that made the attempt (starter: nobody waits
+                                # for it; caller: "launch failed" is the documented outcome); everybody else must be served
             if st['exc'] is not None:
                 e = st['exc']
                 tb = traceback.extract_tb(e.__traceback__)
@@ -92,9 +95,11 @@ def run_schedule(schedule, scenario):
         sessions = 1 + (1 if scenario.get('second') else 0)
         if s.max_live > 1:
             return s, ('two-servers-alive', 'launches=%d closes=%d' % (s.launches, s.closes))
-        if s.launches != sessions:
+        if s.launches != sessions and not (scenario.get('fail_first') and s.launches <= 1):
             return s, ('launch-count', '%d launches for %d session(s)' % (s.launches, sessions))
         for tid, op in results:
+            if op in CALLS and tid == getattr(s, 'failed_in', None):
+                continue
             if op in CALLS:
                 got = s.threads[tid]['result']
                 if got != expected_reply(op):
@@ -156,6 +161,10 @@ def scenarios():
     for b in ('PA', 'AB', 'PAB'):
         out.append({'ops': b, 'pre': False, 'second': 'AB'})
         out.append({'ops': b, 'pre': False, 'second': 'PA'})
+    # fault: the first launch attempt fails; when it was the background starter's, the caller must retry itself
+    for b in ('PA', 'PAB', 'PPA'):
+        out.append({'ops': b, 'pre': False, 'second': '', 'fail_first': True})
+    out.append({'ops': 'A', 'pre': True, 'second': '', 'fail_first': True})
     return out
 
 
@@ -223,7 +232,7 @@ CLIENT_CHILD = r'''
 import sys, os
 sys.path.insert(0, %(repo)r)
 from supp.remote import Environment
-env = Environment(env={'SUPP_LOG_LEVEL': '100'})
+env = Environment(env={'SUPP_LOG_LEVEL': '100', 'PYTHONPATH': %(repo)r})
 env.configure({'sources': ['.']})
 print(env.proc.pid, flush=True)
 mode = sys.argv[1]
@@ -247,7 +256,7 @@ def w_real(job):
     detail = ''
     try:
         if which == 'close-then-reuse':
-            env = Environment(env={'SUPP_LOG_LEVEL': '100'})
+            env = Environment(env={'SUPP_LOG_LEVEL': '100', 'PYTHONPATH': core.REPO})
             env.configure({'sources': ['.']})
             p1 = env.proc
             r1 = env.lint('x = 1\n', 'a.py')
